@@ -37,6 +37,7 @@ var c09Confs = []struct {
 	{"bare(empty store,no keys,nil clock)", world.SPConf{Store: []string{}, EncField: "-", NilClock: true}},
 	{"custom key store without a certificate, encryption certificate validated", world.SPConf{Store: []string{"K1"}, PlainStores: true, EncCertState: "nocert", ValidateEncCert: true}},
 	{"custom key store whose GetKeyPair fails", world.SPConf{Store: []string{"K1"}, PlainStores: true, EncCertState: "keystore-error"}},
+	{"decompression limit configured (1 MiB)", world.SPConf{Store: []string{"K1", "K3"}, MaxSize: 1 << 20}},
 }
 
 var c09Entries = []string{"ValidateEncodedResponse", "RetrieveAssertionInfo", "DecodeUnverifiedBaseResponse", "DecodeUnverifiedLogoutResponse", "ValidateEncodedLogoutRequestPOST", "ValidateEncodedLogoutResponsePOST"}
@@ -388,6 +389,21 @@ func c09Placements() []c09Placed {
 		}
 		out = append(out, c09Placed{name, idp.Encode(idp.Bytes(doc, idp.Layout{}), false)})
 	}
+	// an EncryptedAssertion that decrypts cleanly to something that is not a document with a
+	// root element (anyone can encrypt to the SP)
+	for name, pt := range map[string]string{"empty": "", "whitespace": " \n\t ", "comment-only": "<!-- nothing -->", "prolog-only": "<?xml version=\"1.0\"?>\n", "text-only": "hello", "two-roots": "<a/><b/>"} {
+		for _, alg := range []string{"", idp.AES128CBC} {
+			r := idp.DefaultResponse(1)
+			r.Assertions[0].Sign = idp.SignSpec{Key: "K3"}
+			doc := idp.BuildResponse(r)
+			doc.Root().AddChild(idp.EncryptPlaintext([]byte(pt), idp.EncSpec{DataAlg: alg}))
+			n := "plaintext-" + name
+			if alg != "" {
+				n += "/cbc"
+			}
+			out = append(out, c09Placed{n, idp.Encode(idp.Bytes(doc, idp.Layout{}), false)})
+		}
+	}
 	for _, signed := range []bool{false, true} {
 		mk("direct-child", signed, func(root, ea *etree.Element) { root.AddChild(ea) })
 		mk("twice", signed, func(root, ea *etree.Element) { root.AddChild(ea); root.AddChild(ea.Copy()) })
@@ -649,7 +665,7 @@ func c09Run(r *mc.Run) {
 		bits = []uint{0, 1, 2, 3, 4, 5, 6, 7}
 	}
 	r.Level = "fault_enumeration"
-	r.Rule = "(a) 6 base messages x 3 layers (base64 text, DEFLATE stream, XML bytes): every truncation offset, every single-bit flip (quick: bits 0 and 7 of every byte; thorough: all 8), 12 byte substitutions at every position, each fed to the entry points of its kind under 5 configurations (truncations: to all 6 entry points); (b) unsigned Response + EncryptedAssertion: 8 algorithm identifiers x every ciphertext length 0..64 x content families (zeros, 0xff, valid-truncated, every final plaintext byte 0..255, every position x value of the last non-zero byte of the final block, all-zero final block) with deviation-bounded key-transport / digest / key length / placement / recipient variants, through ValidateEncodedResponse and through DecryptBytes/Decrypt directly; every document one attacker edit (C01's operator menu) away from 8 genuine messages; a valid EncryptedAssertion at 11 placements (direct child, twice, 4 wrappers, nested elements named like the root, inside an assertion, inside another EncryptedAssertion) under signed and unsigned roots, each also delivered three times to one instance of every configuration (incl. a key store whose GetKeyPair fails); direct DecryptSymmetricKey/DecryptBytes calls with odd certificates; (c) structure extremes in a child process. non-trivial = the input passed base64 decoding (reached XML/DEFLATE processing) or reached the decryption routine; distinct = distinct input"
+	r.Rule = "(a) 6 base messages x 3 layers (base64 text, DEFLATE stream, XML bytes): every truncation offset, every single-bit flip (quick: bits 0 and 7 of every byte; thorough: all 8), 12 byte substitutions at every position, each fed to the entry points of its kind under 6 configurations (truncations: to all 6 entry points); (b) unsigned Response + EncryptedAssertion: 8 algorithm identifiers x every ciphertext length 0..64 x content families (zeros, 0xff, valid-truncated, every final plaintext byte 0..255, every position x value of the last non-zero byte of the final block, all-zero final block) with deviation-bounded key-transport / digest / key length / placement / recipient variants, through ValidateEncodedResponse and through DecryptBytes/Decrypt directly; every document one attacker edit (C01's operator menu) away from 8 genuine messages; an EncryptedAssertion that decrypts to a rootless plaintext (empty, whitespace, comment, prolog, text, two roots); a valid EncryptedAssertion at 11 placements (direct child, twice, 4 wrappers, nested elements named like the root, inside an assertion, inside another EncryptedAssertion) under signed and unsigned roots, each also delivered three times to one instance of every configuration (incl. a key store whose GetKeyPair fails); direct DecryptSymmetricKey/DecryptBytes calls with odd certificates; (c) structure extremes in a child process. non-trivial = the input passed base64 decoding (reached XML/DEFLATE processing) or reached the decryption routine; distinct = distinct input"
 	r.Assume("a Go panic in the callee is observable by recover(); fatal runtime errors are observed as death of a child process")
 
 	// (a)
